@@ -408,10 +408,21 @@ def emissions(prog, fn):
     ret_defs = fn.whole_defs(0)
     if find(0) not in bset and ret_defs and not any(find(m) in bset for m in members.get(find(0), [0])):
         alloc = {}
+        alloc_lit = {}
         for b in builders:
             for kind, payload, bi, si, place in class_defs(b):
                 if kind == "call" and callee_of(payload).rsplit("::", 1)[-1] in ("new", "with_capacity", "from", "default", "to_string", "to_owned"):
                     alloc[bi] = b
+                    if payload["args"]:
+                        # value trees look through String::from("lit") to the literal
+                        cv = strip(R.operand(payload["args"][0]))
+                        if cv[0] == "const" and isinstance(cv[2], str):
+                            alloc_lit[cv[2]] = None if cv[2] in alloc_lit else b
+                elif kind == "stmt" and payload["k"] == "use" and payload["op"].get("k") == "const":
+                    # `String::from("<t>")` already folded to its literal (inline.expand_literal_converters)
+                    cv = strip(R.operand(payload["op"]))
+                    if cv[0] == "const" and isinstance(cv[2], str):
+                        alloc_lit[cv[2]] = None if cv[2] in alloc_lit else b
         ret = R.local(0)
         r = strip(ret)
         if r[0] == "ok":
@@ -434,6 +445,10 @@ def emissions(prog, fn):
                     if x[0] == "call" and len(x) > 3 and x[3] in alloc:
                         used.append(alloc[x[3]])
                         out.extend(tokens_of(alloc[x[3]]))
+                        continue
+                    if x[0] == "const" and isinstance(x[2], str) and alloc_lit.get(x[2]) is not None and "String" in str(tk[2]):
+                        used.append(alloc_lit[x[2]])
+                        out.extend(tokens_of(alloc_lit[x[2]]))
                         continue
                 if tk[0] == "alt":
                     out.append(("alt", [subst_builders(a) for a in tk[1]]))
